@@ -158,15 +158,16 @@ def main(run):
     pkg = run.package()
     contract_functions(run, pkg)
     run.under_contract(pkg, "run.model", ["ModelInstance.get_env"])
-    ns = (2, 3, 4, 5) if run.tier == "quick" else (2, 3, 4, 5, 6)
+    ns = (2, 3, 4, 5, 6)
     for n in ns:
         run.prove(f"equiv[n={n}]", S.sc_sa_equiv, {"n": n},
                   fallback=(lambda n=n: run.bounded_run(f"fallback.equiv[n={n}]", S.sc_sa_equiv, {"n": n},
                                                         _equiv_inputs(run, n, 200), bound="200 seeded states")))
         for comp in ("superadditive", "superadditive_cached"):
-            run.prove(f"repeat.{comp}[n={n}]", S.sc_stale_independent, {"n": n, "computer": comp, "twice": True})
+            if n <= 5 or run.tier != "quick":
+                run.prove(f"repeat.{comp}[n={n}]", S.sc_stale_independent, {"n": n, "computer": comp, "twice": True})
     run.discharge()
-    memo_check(run, pkg, ns)
+    memo_check(run, pkg, (2, 3, 4, 5) if run.tier == "quick" else ns)
     registry_check(run, pkg)
     for n in ((2, 3, 4, 5, 6, 7) if run.tier == "quick" else (2, 3, 4, 5, 6, 7, 8)):
         bit_identity(run, n, (8 if n <= 5 else 3 if n == 6 else 2) if run.tier == "quick" else (40 if n <= 6 else 4))
